@@ -105,10 +105,12 @@ def perm_queries(be, tier):
             if tier == "thorough":
                 for r in range(0, 11):
                     qs.append(pq(n, be, 3, r, iters=2))
-        if tier == "thorough" and n < 4:
-            # the permutation of a build with fewer maximum shares is the same text with a narrower word type
-            qs.append(pq(n, be, 0, 3, mx=n))
-            qs.append(pq(n, be, 2, 0, mx=n))
+        if n < 4 and (tier == "thorough" or be == "x86asm"):
+            # builds with fewer maximum shares: in C the same text with a narrower state type; in the x86-64 assembly a
+            # separate preprocessor variant of the whole function with other share offsets (each variant is checked)
+            for mx in range(n, 4):
+                qs.append(pq(n, be, 0, 3 if tier == "thorough" else 11, mx=mx))
+                qs.append(pq(n, be, 2, 0, mx=mx))
     return qs
 
 
